@@ -455,7 +455,13 @@ def _run(tier, seed, replay, ctl):
                      "abstract class plus a seeded sample), byte = every byte offset of the first body of each reference stream x {read error, "
                      "clean EOF} on a real session, scan = the same offsets through scanEvents alone; distinct = (configuration, bodies served "
                      "with their cuts, reconnects with their answers); non-trivial = at least one body was cut")
-    v.cov["exhaustive"] = (not replay) and (not quick)
+    ran = {n: sum(1 for c in cases if c["id"].startswith(n + ".")) for n in ("gen1", "gen2", "gen3")}
+    v.cov["behaviours_replayed"] = ran
+    v.cov["exhaustive_parts"] = {"single_cut_behaviours": (not replay) and ran["gen1"] == len(exported["gen1"]),
+                                 "two_cut_behaviours_reduced_cfg": (not replay) and ran["gen2"] == sum(1 for p in exported["gen2"] if ncuts(p) >= 2),
+                                 "three_cut_behaviours_reduced_cfg": (not replay) and ran["gen3"] == sum(1 for p in exported["gen3"] if ncuts(p) >= 2),
+                                 "byte_offsets_of_reference_bodies": not replay}
+    v.cov["exhaustive"] = all(v.cov["exhaustive_parts"].values())
     shown = 0
     for r in rows:
         if r["level"] != "scan" and len(r["bodies"]) >= 2 and shown < 5 and r["outcome"] in ("resp", "open"):
